@@ -30,6 +30,10 @@ type c20HTTPCase struct {
 	Prometheus bool   `json:"prometheus"`
 	PProf      bool   `json:"pprof"`
 	Signal     string `json:"signal"`
+	// InFlight: what a client has in progress when the signal arrives: "" (nothing),
+	// "handler" (a /metrics request whose handler has not finished and will not by
+	// itself), "partial" (a connection that has sent half a request).
+	InFlight string `json:"in_flight,omitempty"`
 }
 
 func c20HTTPCheck(c c20HTTPCase) (out [][2]string) {
@@ -46,7 +50,15 @@ func c20HTTPCheck(c c20HTTPCase) (out [][2]string) {
 	ll := log.New(io.Discard, "", 0)
 	st := system.TestState{Forwarding: true}
 	cfg := config.Config{Debug: config.Debug{Address: addr, Prometheus: c.Prometheus, PProf: c.PProf}}
-	prom := http.HandlerFunc(func(w http.ResponseWriter, _ *http.Request) { io.WriteString(w, "# metrics\n") })
+	entered, release := make(chan struct{}, 1), make(chan struct{})
+	defer close(release)
+	prom := http.HandlerFunc(func(w http.ResponseWriter, r *http.Request) {
+		if r.URL.Query().Get("block") != "" {
+			entered <- struct{}{}
+			<-release
+		}
+		io.WriteString(w, "# metrics\n")
+	})
 	s := NewServer(NewContext(ll, nil, st))
 	s.w = nil // no link watcher: this case is about the HTTP task alone
 	tasks := s.BuildTasks(cfg, crhttp.NewHandler(ll, st, cfg, prom))
@@ -82,6 +94,27 @@ func c20HTTPCheck(c c20HTTPCase) (out [][2]string) {
 	if code := get("/_/api/interfaces"); code != 200 && code != -1 {
 		bad("C20:http:api", "GET /_/api/interfaces: status %d", code)
 	}
+	switch c.InFlight {
+	case "handler":
+		go func() {
+			if resp, err := (&http.Client{}).Get("http://" + addr + "/metrics?block=1"); err == nil {
+				resp.Body.Close()
+			}
+		}()
+		select {
+		case <-entered:
+		case <-time.After(30 * time.Second):
+			bad("C20:http:request", "GET /metrics never reached the handler")
+		}
+	case "partial":
+		if conn, err := net.Dial("tcp", addr); err != nil {
+			bad("C20:http:request", "dial: %v", err)
+		} else {
+			defer conn.Close()
+			io.WriteString(conn, "GET /_/api/interfaces HTTP/1.1\r\nHost: x\r\nX-Half")
+			time.Sleep(50 * time.Millisecond) // let the server read it (liveness only: either way the oracle below holds)
+		}
+	}
 	sig := map[string]os.Signal{"TERM": syscall.SIGTERM, "HUP": syscall.SIGHUP}[c.Signal]
 	sigC <- sig
 	select {
@@ -109,16 +142,21 @@ func c20HTTPCheck(c c20HTTPCase) (out [][2]string) {
 func TestVerifC20HTTP(t *testing.T) {
 	r := ev.Begin("C20", "http")
 	defer r.End(t)
-	r.Rule = "the real debug HTTP server task made by BuildTasks, run by the real Serve on a loopback socket in real time: {prometheus, pprof} x {SIGTERM, SIGHUP} (8 cases): exactly one task, reports ready, answers the API, Serve returns nil on the signal, the address is released; non-trivial = every case"
+	r.Rule = "the real debug HTTP server task made by BuildTasks, run by the real Serve on a loopback socket in real time: {prometheus, pprof} x {SIGTERM, SIGHUP} x {no request in progress, a /metrics request whose handler does not finish by itself, a connection that has sent half a request} (20 cases): exactly one task, reports ready, answers the API, Serve returns nil on the signal, the address is released; non-trivial = every case"
 	r.Assumptions = []string{"loopback TCP is available; liveness deadlines of 30 s of real time (a miss means a hang, not a slow machine)"}
 	for _, p := range []bool{false, true} {
 		for _, q := range []bool{false, true} {
 			for _, sig := range []string{"TERM", "HUP"} {
-				c := c20HTTPCase{Prometheus: p, PProf: q, Signal: sig}
-				r.Case(ev.JSON(c), true)
-				r.Sample(c)
-				for _, v := range c20HTTPCheck(c) {
-					r.Violation(v[0], v[1], c)
+				for _, inf := range []string{"", "handler", "partial"} {
+					if inf == "handler" && !p {
+						continue
+					}
+					c := c20HTTPCase{Prometheus: p, PProf: q, Signal: sig, InFlight: inf}
+					r.Case(ev.JSON(c), true)
+					r.Sample(c)
+					for _, v := range c20HTTPCheck(c) {
+						r.Violation(v[0], v[1], c)
+					}
 				}
 			}
 		}
